@@ -179,6 +179,8 @@ def enc_desc(d, cells):
         return {"k": "pybool", "b": bool(d[1])}
     if k in ("list", "tuple"):
         return {"k": "list", "items": [enc_desc(x, cells) for x in d[1]]}
+    if k == "dict":
+        return {"k": "dict", "keys": [i + 1 for i, _x in d[1]], "items": [enc_desc(x, cells) for _i, x in d[1]]}
     if k == "intobj":
         n = int(d[1])
         return {"k": "intobj", "v": {"k": "int", "neg": n < 0, "mag": le_bytes(abs(n))}}
@@ -575,6 +577,13 @@ class Builder:
         if c == "none": return ["none"]
         if c == "int": return ["int", "0"]
         if c == "ptr_to_same": return ["null", cname(t) + " *"]
+        if c == "dict_ok":
+            order = list(range(len(fields)))
+            self.rng.shuffle(order)
+            return ["dict", [[i, oks[i]] for i in order]]
+        if c == "dict_short":
+            order = self.rng.sample(range(len(fields)), self.rng.randint(0, len(fields) - 1))
+            return ["dict", [[i, oks[i]] for i in order]]
         raise KeyError(c)
 
     def arg(self, t, c, cells, n=1):
